@@ -185,12 +185,25 @@ def is_num(v):
     return isinstance(v, (SInt, SBool, SReal, int, float)) and not isinstance(v, Opaque)
 
 
+POW2U = z3.Function("pow2u", z3.IntSort(), z3.IntSort())
+WIDE_POW2 = True
+
+
 def pow2(I, k):
     """2**k for symbolic k (0 <= k <= 136 required)"""
     e = I.e
     if isinstance(k, int):
         return 1 << k
     kz = zint(k)
+    if WIDE_POW2 and e.feasible(kz > 136):
+        # an amount without upper bound (the bit length of a byte field of any length): 2**k as an uninterpreted
+        # function of k with the facts used (positive, at least 1, strictly above k) - weaker than the truth, hence
+        # sound for proofs; the value remembers its shape for the idioms built on it ((1 << n) - 1).to_bytes(n // 8))
+        if e.branch(kz < 0, likely=False):
+            raise PyRaise(ValueError("negative shift count"), implicit=True)
+        p = POW2U(kz)
+        e.assume(z3.And(p >= 1, p > kz))
+        return SInt(p, shape=("pow2", kz))
     if not e.branch(z3.And(kz >= 0, kz <= 136)):
         if e.branch(kz < 0):
             raise PyRaise(ValueError("negative shift count"), implicit=True)
@@ -310,6 +323,8 @@ def _binop(I, op, a, b):
     if t is ast.Add:
         return simp_int(zint(a) + zint(b))
     if t is ast.Sub:
+        if isinstance(a, SInt) and a.shape is not None and a.shape[0] == "pow2" and isinstance(b, int) and b == 1:
+            return SInt(a.z - 1, shape=("pow2m1", a.shape[1]))
         return simp_int(zint(a) - zint(b))
     if t is ast.Mult:
         return simp_int(zint(a) * zint(b))
@@ -322,6 +337,8 @@ def _binop(I, op, a, b):
         return simp_int(zint(a) - zint(b) * zint(q))
     if t is ast.LShift:
         p = pow2(I, b)
+        if isinstance(p, SInt) and p.shape is not None and isinstance(a, int) and a == 1:
+            return p
         r = simp_int(zint(a) * zint(p))
         if isinstance(r, SInt) and isinstance(b, int):
             r.lowzeros = b
@@ -1262,6 +1279,10 @@ def symmethod(I, o, name, args, kwargs):
             signed = kwargs.get("signed", False)
             if signed:
                 raise Undecided("to_bytes signed")
+            if o.shape is not None and o.shape[0] == "pow2m1" and is_sym(L) and \
+                    not e.feasible(z3.Not(z3.And(zint(L) >= 0, 8 * zint(L) == o.shape[1]))):
+                # (2**(8*L) - 1).to_bytes(L, ...): L bytes of 0xff
+                return SBytes(z3.K(INT, z3.BitVecVal(255, 8)), z3.IntVal(0), zint(L))
             if is_sym(L):
                 L = e.choose_value(zint(L), max_values=70)
             if not e.branch(z3.And(o.z >= 0, o.z < (1 << (8 * L)))):
